@@ -222,7 +222,7 @@ def get_year(years: Sequence[str], exclude_year: bool) -> Optional[str]:
     year = None
     if not exclude_year:
         if years:
-            if len(years) > 1:
+            if min(years) != max(years):
                 year = f"{min(years)} - {max(years)}"
             else:
                 year = years[0]
